@@ -225,10 +225,14 @@ def timerDiff (clock : Nat) (tsec tusec : Int) : Int × Int :=
   else if tusec < nusec then (tsec - nsec - 1, tusec - nusec + 1000000)
   else (tsec - nsec, tusec - nusec)
 
-/-- `events_network_select`'s conversion to milliseconds -/
+/-- `events_network_select`'s conversion to milliseconds: `-1` for `tv == NULL`, else `tv2ms(tv)` —
+    rounded up; from `INT_MAX / 1000` = 2147483 seconds on, where `tv_sec * 1000 + …` might not fit in
+    an `int`, as many whole seconds as do fit: `(INT_MAX / 1000) * 1000` ms, never longer than `tv`
+    (the repair of finding F12, `notes/F12-fix.md`; before it this branch returned `INT_MAX`, up to
+    647 ms more than `tv`) -/
 def selectTimeout : Option (Int × Int) → Int
   | none => -1
-  | some (sec, usec) => if sec ≥ 2147483 then 2147483647 else sec * 1000 + (usec + 999) / 1000
+  | some (sec, usec) => if sec ≥ 2147483 then 2147483000 else sec * 1000 + (usec + 999) / 1000
 
 /-- the carry into / out of the microseconds after subtracting two `struct timeval`s field by field
     (`if (tleft.tv_usec < 0) … else if (tleft.tv_usec >= 1000000) …`) -/
@@ -255,6 +259,7 @@ structure Script where
 inductive PollAns
   | ans (adv : Nat) (fds : List (Nat × Bits))
   | eintr (adv : Nat)
+  | intr (adv : Nat)        -- EINTR from a signal whose handler has called `events_interrupt()`
   deriving Repr, Inhabited
 
 structure State where
@@ -374,7 +379,9 @@ def nextTimeout (wait : Option ((Int × Int) × Nat)) (timeout : Int) (clock : N
 
 /-- the `while (poll(...) == -1)` loop of `events_network_select`, consuming the answer queue `q`;
     an empty queue answers "nothing ready"; after EINTR (and no interrupt request) poll is called
-    again with `nextTimeout` -/
+    again with `nextTimeout`.  The answer `intr adv` is a signal arriving `adv` µs into the poll —
+    any poll, whatever its timeout — whose handler calls `events_interrupt()`: poll fails with EINTR,
+    `*interrupt_requested` is set, and the loop is left (`if (*interrupt_requested) break;`) -/
 def pollLoop (s : State) (wait : Option ((Int × Int) × Nat)) (timeout : Int) : List PollAns → State
   | [] => answer s timeout 0 [] []
   | .ans adv a :: rest => answer s timeout adv a rest
@@ -382,6 +389,9 @@ def pollLoop (s : State) (wait : Option ((Int × Int) × Nat)) (timeout : Int) :
       let s1 := emit { s with clock := s.clock + adv, pollq := rest }
                   (.poll timeout adv (pollEntries s.net.fds (fun _ => {})) .eintr)
       if s1.intr then s1 else pollLoop s1 wait (nextTimeout wait timeout s1.clock) rest
+  | .intr adv :: rest =>
+      emit { s with clock := s.clock + adv, pollq := rest, intr := true }
+        (.poll timeout adv (pollEntries s.net.fds (fun _ => {})) .intr)
 where
   answer (s : State) (timeout : Int) (adv : Nat) (a : List (Nat × Bits)) (rest : List PollAns) : State :=
     let nready := (s.net.fds.toList.filter (fun e => (maskAns a e).any)).length
